@@ -6,7 +6,7 @@ import subprocess
 from . import common
 
 
-def run_programs(ck, cases, perturb=None, shards=None, timeout=1800, tag='prog'):
+def run_programs(ck, cases, perturb=None, shards=None, timeout=3600, tag='prog'):
     """cases: list of dict(id, src, [repeat, timeout_ms, fids]).  Returns dict id -> result
     where result = {'status': done|hung|crashed, 'runs': [...]} with out/err decoded to bytes."""
     mxh = common.build_mxh()
@@ -33,8 +33,9 @@ def run_programs(ck, cases, perturb=None, shards=None, timeout=1800, tag='prog')
             try:
                 _, err = p.communicate(timeout=timeout)
             except subprocess.TimeoutExpired:
-                p.kill()
-                _, err = p.communicate()
+                for q, _, _ in procs:
+                    q.kill()
+                raise common.Infra('run-programs shard did not finish within %ds (machine overloaded?)' % timeout)
             started = None
             fin = set()
             if os.path.exists(outp):
